@@ -317,7 +317,7 @@ def build_harness(name, flags=(), sanitize=False, hooks=True, san="address,undef
                           + " ".join(fl)).encode()).hexdigest()[:20]
     d = os.path.join(BUILD, "harness")
     os.makedirs(d, exist_ok=True)
-    out = os.path.join(d, f"{name}-{key}")
+    out = os.path.join(d, f"{name}{'-san' if sanitize else ''}-{key}")
     with Lock("harness-" + name):
         if not os.path.exists(out):
             # garbage-collect old variants of this harness (several flag variants may be live at once)
@@ -373,7 +373,9 @@ def run_sim(binary, args=(), nodes=1, ppn=1, env=None, sim_seed=1, policy="unifo
     e.update({"SIMMPI_NODES": str(nodes), "SIMMPI_PPN": str(ppn), "SIMMPI_SEED": str(sim_seed),
               "SIMMPI_POLICY": policy, "SIMMPI_EAGER_PCT": str(eager_pct), "SIMMPI_MAX_STEPS": str(max_steps),
               "SIMMPI_LIVELOCK": str(livelock), "SIMMPI_LOG_BYTES": str(log_bytes),
-              "YGM_COMM_IRECV_SIZE_KB": "4096"})
+              "YGM_COMM_IRECV_SIZE_KB": "4096", "SIMMPI_WALL_S": str(int(timeout) + 30), "SIMMPI_MAX_LOG_MB": "768"})
+    if "SIMMPI_AS_MB" not in e and "-san-" not in os.path.basename(binary) and "san" not in os.path.basename(binary).split("-")[0]:
+        e["SIMMPI_AS_MB"] = "6144"     # a runaway handler must not eat the machine (not for sanitizer builds)
     e.pop("SIMMPI_LOG", None)
     if env:
         e.update({k: str(v) for k, v in env.items()})
